@@ -305,9 +305,7 @@ def run(ctx):
             sub = vf.Ctx(ctx.pid, ctx.tier, ctx.seed)
             sub.kf = ctx.kf
             try:
-                import io, contextlib
-                with contextlib.redirect_stdout(io.StringIO()):
-                    n = validate(sub, [c], 2, "self")
+                n = validate(sub, [c], 2, "self")
                 for _, p in sub.violations:
                     try:
                         os.remove(p)
@@ -339,7 +337,7 @@ def run(ctx):
     acts = {}
     for f in mcf:
         res = f.result()
-        for m in re.finditer(r"<(?:NF|FA) line (\d+), col \d+ to line \d+, col \d+ of module MC_Telemetry>: (\d+):(\d+)", res.out):
+        for m in re.finditer(r"<(?:NF|FA) line \d+, col \d+ to line \d+, col \d+ of module MC_Telemetry \((\d+) \d+ \d+ \d+\)>: (\d+):(\d+)", res.out):
             mm = re.match(r"A_(\w+) ==", src[int(m.group(1)) - 1])
             if mm:
                 acts[mm.group(1)] = acts.get(mm.group(1), 0) + int(m.group(3))
